@@ -70,7 +70,7 @@ def obligations(tier):
 
 MANIFEST = {
     "text": "Partial claim. For every field value in range (ints over the whole range, doubles over all bit patterns, float32 via the z3 rounding model, short strings) the real _to_dict/_from_dict and the RTMAJSONEncoder hook reproduce the message store exactly, "
-            "for VALIDATOR_STRUCT (every field kind) and for each class of core_defs/test_defs with some fields symbolic; Message.from_json refuses a non-zero version that differs from the local hash for every uint32. "
+            "for VALIDATOR_STRUCT (every field kind) and for each class of core_defs/test_defs with some fields symbolic; Message.from_json refuses a non-zero version that differs from the local hash for every uint32, also for the second document of a type decoded in one process. "
             "Not claimed: the JSON text layer itself, ctypes copy independence. Known finding: bytes behind a string's terminating NUL are not preserved.",
     "note": "ctypes shadows; json text layer replaced by a structural copy; idempotent-rounding lemma proved per run",
     "design_ref": "DESIGN.md 4.10",
